@@ -10,6 +10,7 @@ type DocCfg struct {
 	MaxNodes     int // budget for element/text/comment/pi nodes
 	MaxDepth     int
 	MaxKids      int
+	Spine        int  // every element above this depth has an element child first (deep, narrow documents)
 	Namespaces   bool // namespace declarations and names in namespaces
 	TopMisc      bool // comments / PIs / extra elements at top level
 	AdjacentText bool // allow two text siblings in a row
@@ -19,8 +20,8 @@ type DocCfg struct {
 }
 
 var DefaultNames = []string{"a", "b", "c", "d", "item", "x-1", "n.m", "child", "text", "self", "comment", "node", "attribute", "a", "div", "or", "mod", "and", "NaN", "inf", "Infinity", "nan"}
-var DefaultTexts = []string{"1", "2", "10", "9", "-3", "1.5", "2.25", " 7 ", "0", "abc", "", "1e3", "NaN", "Infinity", "0x10", "+1", "é", "𝄞x", "3", "b", " ", "a b", "-0", ".5", "5.", "007", "12345678901234567890", "\u00a012", "3\u2003", "\u00854", "1\u00a0"}
-var NumericTexts = []string{"1", "2", "10", "9", "-3", "1.5", "2.25", "0", "3", "4", "-0.5", "100", "0.125", "7", "\u00a012", " 8 ", "\t6\n"}
+var DefaultTexts = []string{"1", "2", "10", "9", "-3", "1.5", "2.25", " 7 ", "0", "abc", "", "1e3", "NaN", "Infinity", "0x10", "+1", "é", "𝄞x", "3", "b", " ", "a b", "-0", ".5", "5.", "007", "12345678901234567890", "\u00a012", "3\u2003", "\u00854", "1\u00a0", " -5", "\n-2.5 ", "9999999999999999999", "9223372036854775808"}
+var NumericTexts = []string{"1", "2", "10", "9", "-3", "1.5", "2.25", "0", "3", "4", "-0.5", "100", "0.125", "7", "\u00a012", " 8 ", "\t6\n", " -5", "\n-2.5 ", "9999999999999999999", "9223372036854775808", "9223372036854775807"}
 
 // numbers too large for a double: number() is +-Infinity (IEEE round to nearest), not NaN
 var HugeNumberTexts = []string{"1" + strings.Repeat("0", 309), "-" + strings.Repeat("9", 320) + ".5", " 17976931348623158" + strings.Repeat("0", 292) + " ", "17976931348623157" + strings.Repeat("0", 292)}
@@ -124,6 +125,9 @@ func (g *docGen) element(depth int) {
 	}
 	nk := r.Intn(g.cfg.MaxKids + 1)
 	lastText := false
+	if depth < g.cfg.Spine {
+		g.element(depth + 1)
+	}
 	for i := 0; i < nk && g.budget > 0; i++ {
 		switch c := r.Intn(10); {
 		case c < 5 && depth < g.cfg.MaxDepth:
